@@ -339,6 +339,7 @@ func (e *env) runAll() {
 		e.runOne(caseRec{Layer: "L1", Path: "shellout", Blocks: []int{n}})
 	}
 	e.runOne(caseRec{Layer: "L1", Path: "shellpty", Blocks: []int{100000}})
+	e.runOne(caseRec{Layer: "L2", Path: "shell-out-slow-consumer"})
 
 	// meshConn.Write through a real tunnel (deterministic, modelled)
 	e.runMeshConn("meshconn", sweepSizes(c.Rand, 16356, c.N(8, 200), true))
@@ -387,6 +388,8 @@ func (e *env) runOne(r caseRec) {
 			e.runShellIn(r.Blocks)
 		case r.Layer == "L1":
 			e.runScripted(r)
+		case r.Path == "shell-out-slow-consumer":
+			e.e2eShellSlowConsumer()
 		default:
 			e.runE2E()
 		}
